@@ -12,7 +12,9 @@ EXPLANATION = (
     "Lean model of the quantisation backend (node-wise rewrite with argument splice) and of the straight-through "
     "quantisers as DOps. Theorems: quantise_fwd/bwd specs, quantised op = op on forward-quantised tensor operands with "
     "backward-quantised output gradient, lossless identity, only mapped calls change, well-formed splice, format tuple "
-    "round-trip, fp8 instance. Check: (a) the real backend on FX graphs of generated modules vs the model's output "
+    "round-trip, fp8 instance; a model of Python call binding (tied to the live signatures) with theorems that the spliced "
+    "call binds every operand to the parameter of the same name and forwards every other option; the rewritten graph is "
+    "well-formed. Check: (a) the real backend on FX graphs of generated modules vs the model's output "
     "graph (exact); (b) the real simulate_format / simulate_fp8 through TorchDynamo vs a reference execution with the "
     "quantisation written by hand from the property text, outputs and all gradients bit for bit."
 )
